@@ -18,3 +18,5 @@
 (declare-fun blockparent (Int) (Array (_ BitVec 64) (_ BitVec 8)))
 (declare-fun blocknum (Int) (_ BitVec 64))
 (declare-fun blockdiff (Int) Int)
+; the live state object of an address in a state database (pure observer used by the journal contracts)
+(declare-fun stobj (Int (Array (_ BitVec 64) (_ BitVec 8))) Int)
